@@ -210,6 +210,10 @@ pub uninterp spec fn vec_scale_s_c(k: f64, b: Vector3, i: int) -> f64;
 pub open spec fn vec_scale_s(k: f64, b: Vector3) -> Vector3 { Vector3 { x: vec_scale_s_c(k, b, 0), y: vec_scale_s_c(k, b, 1), z: vec_scale_s_c(k, b, 2) } }
 pub uninterp spec fn iso_mul_s(a: Isometry3, b: Isometry3) -> Isometry3;
 pub uninterp spec fn iso_inv_s(a: Isometry3) -> Isometry3;
+/// nalgebra `Isometry3 * Translation3` (tool.rs: LinearAxis, Gantry): the isometry composed with a pure translation
+pub uninterp spec fn iso_mul_tr_s(a: Isometry3, t: Translation3) -> Isometry3;
+/// a pure translation as a rigid motion
+pub open spec fn tr_iso(t: V3) -> Iso { Iso { r: mid(), t } }
 
 impl core::ops::Mul<Matrix3> for Matrix3 { type Output = Matrix3; #[verifier::external_body] fn mul(self, rhs: Matrix3) -> Matrix3 { unimplemented!() } }
 impl MulSpecImpl<Matrix3> for Matrix3 {
@@ -252,6 +256,12 @@ impl MulSpecImpl<Isometry3> for Isometry3 {
     open spec fn obeys_mul_spec() -> bool { true }
     open spec fn mul_req(self, rhs: Isometry3) -> bool { true }
     open spec fn mul_spec(self, rhs: Isometry3) -> Isometry3 { iso_mul_s(self, rhs) }
+}
+impl core::ops::Mul<Translation3> for Isometry3 { type Output = Isometry3; #[verifier::external_body] fn mul(self, rhs: Translation3) -> Isometry3 { unimplemented!() } }
+impl MulSpecImpl<Translation3> for Isometry3 {
+    open spec fn obeys_mul_spec() -> bool { true }
+    open spec fn mul_req(self, rhs: Translation3) -> bool { true }
+    open spec fn mul_spec(self, rhs: Translation3) -> Isometry3 { iso_mul_tr_s(self, rhs) }
 }
 impl core::ops::Deref for UnitVector3 { type Target = Vector3; #[verifier::external_body] fn deref(&self) -> (r: &Vector3) ensures *r == self.value { unimplemented!() } }
 
@@ -331,10 +341,14 @@ pub broadcast axiom fn ax_iso_inv(a: Isometry3)
     requires a.wf()
     ensures (#[trigger] iso_inv_s(a)).wf(), iso_inv_s(a).view() == iso_inv(a.view());
 
+pub broadcast axiom fn ax_iso_mul_tr(a: Isometry3, t: Translation3)
+    requires a.wf(), t.vector.vfin()
+    ensures (#[trigger] iso_mul_tr_s(a, t)).wf(), iso_mul_tr_s(a, t).view() == iso_mul(a.view(), tr_iso(t.vector.v()));
+
 pub open spec fn iso_wf(p: Iso) -> bool { proper(p.r) }
 
 pub broadcast group group_na {
-    ax_mat_mul, ax_mat_scale, ax_mat_vec, ax_vec_add, ax_vec_sub, ax_vec_scale, ax_iso_mul, ax_iso_inv, ax_norm, ax_pt_sub, ax_cross,
+    ax_mat_mul, ax_mat_scale, ax_mat_vec, ax_vec_add, ax_vec_sub, ax_vec_scale, ax_iso_mul, ax_iso_inv, ax_iso_mul_tr, ax_norm, ax_pt_sub, ax_cross,
 }
 
 } // mod na
